@@ -505,6 +505,23 @@ static bool capi_ops(const char* op) {
         st(e); puti(embedded_pairing_bls12_381_g2prepared_is_zero((embedded_pairing_bls12_381_g2prepared_t*) prep));
         free(prep); return true;
     }
+    OP("pairing_proj") {
+        // pairing_proj <g1 jacobian> <g2 jacobian> which : representatives with a chosen z are converted by the library, then paired
+        G1 pj; G2 qj; ld(1, pj); ld(2, qj); int which = (int) argi(3);
+        memset(&po1, 0xa5, sizeof po1); memset(&po2, 0xa5, sizeof po2);
+        if (which & 4) { po1.from_projective(pj); po2.from_projective(qj); }
+        else { embedded_pairing_bls12_381_g1affine_from_projective(CG1A(&po1), CG1(&pj)); embedded_pairing_bls12_381_g2affine_from_projective(CG2A(&po2), CG2(&qj)); }
+        which &= 3;
+        if (which == 0) embedded_pairing_bls12_381_pairing(CGT(&e), CG1A(&po1), CG2A(&po2));
+        else if (which == 1) pairing<G2Affine>(e, po1, po2);
+        else {
+            G2Prepared* prep = (G2Prepared*) malloc(sizeof(G2Prepared));
+            embedded_pairing_bls12_381_g2prepared_prepare((embedded_pairing_bls12_381_g2prepared_t*) prep, CG2A(&po2));
+            embedded_pairing_bls12_381_prepared_pairing(CGT(&e), CG1A(&po1), (embedded_pairing_bls12_381_g2prepared_t*) prep);
+            free(prep);
+        }
+        st(e); return true;
+    }
     OP("pairing_sum") {
         // pairing_sum <repeat> <n> then n triples: kind(a|p) g1a g2a ; kind p = prepared. With repeat=2 the same arrays are reused.
         int repeat = (int) argi(1), n = (int) argi(2);
